@@ -141,6 +141,10 @@ pub fn configs(tier: Tier) -> Vec<(Cfg, Plan)> {
                 if variant == Variant::IpcThreadsafe && gi > if tier == Tier::Quick { 0 } else { 1 } {
                     continue;
                 }
+                // quick: the second (two-node) ipc graph only for publish-subscribe and request-response
+                if tier == Tier::Quick && variant == Variant::Ipc && gi > 0 && matches!(pattern, Pattern::Event | Pattern::Blackboard) {
+                    continue;
+                }
                 // Cost per execution (CPU, loaded machine): local 5..30 ms, ipc 100..300 ms (request-response is
                 // the most expensive). The graphs are cut down to a maximal number of objects by dropping
                 // service / node handles at the end of new_sys (they are then not part of the permutation).
